@@ -24,28 +24,78 @@ func init() {
 }
 
 // funcFieldsByRole: names of Func's fields: fn (reflect.Value), once (bool), memo (*Result or Result).
+// A field that is a struct of the target package held by value is looked through (one level): a memo kept as
+// `memo struct{enabled bool; result *Result}` gives once = "memo.enabled", memo = "memo.result".
 func (c *Ctx) funcFieldsByRole() (fn, once, memo string) {
 	m, ok := c.P.Arg.Members["Func"].(*ssa.Type)
 	if !ok {
 		return
 	}
-	s, _ := core.StructOf(m.Type())
-	for i := 0; i < s.NumFields(); i++ {
-		f := s.Field(i)
-		switch {
-		case core.TypeStr(f.Type()) == "reflect.Value":
-			fn = core.CanonFieldName(s, i)
-		case types.Identical(f.Type(), types.Typ[types.Bool]):
-			if once != "" {
-				once = "?"
-			} else {
-				once = core.CanonFieldName(s, i)
+	c.innerField = map[string][2]string{}
+	var walk func(s *types.Struct, prefix, owner string, depth int)
+	walk = func(s *types.Struct, prefix, owner string, depth int) {
+		for i := 0; i < s.NumFields(); i++ {
+			f := s.Field(i)
+			name := prefix + core.CanonFieldName(s, i)
+			if prefix != "" {
+				c.innerField[name] = [2]string{owner, core.CanonFieldName(s, i)}
 			}
-		case core.NamedOf(f.Type()) == "Result":
-			memo = core.CanonFieldName(s, i)
+			switch {
+			case core.TypeStr(f.Type()) == "reflect.Value":
+				if prefix == "" {
+					fn = name
+				}
+			case types.Identical(f.Type(), types.Typ[types.Bool]):
+				if once != "" {
+					once = "?"
+				} else {
+					once = name
+				}
+			case core.NamedOf(f.Type()) == "Result":
+				memo = name
+			default:
+				if in, n := core.StructOf(f.Type()); in != nil && n != nil && depth == 0 {
+					if _, isPtr := f.Type().Underlying().(*types.Pointer); !isPtr && n.Obj().Pkg() == c.P.Arg.Pkg {
+						walk(in, name+".", n.Obj().Name(), depth+1)
+					}
+				}
+			}
 		}
 	}
+	s, _ := core.StructOf(m.Type())
+	walk(s, "", "Func", 0)
 	return
+}
+
+// funcFieldAddr: v is the address of Func's field id (a possibly nested name from funcFieldsByRole); returns the
+// Func it belongs to. When the enclosing Func cannot be determined (an unbound method of the nested struct), the
+// field still matches and base is the nested struct.
+func (c *Ctx) funcFieldAddr(v ssa.Value, id string) (base ssa.Value, ok bool) {
+	fr, ok := c.P.FlatFieldAddr(v)
+	if !ok {
+		return nil, false
+	}
+	if fr.Owner == "Func" && fr.Field == id {
+		return fr.Base, true
+	}
+	if in, nested := c.innerField[id]; nested && fr.Owner == in[0] && fr.Field == in[1] {
+		return fr.Base, true
+	}
+	return nil, false
+}
+
+func (c *Ctx) funcFieldLoad(v ssa.Value, id string) (base ssa.Value, ok bool) {
+	fr, ok := c.P.FlatFieldLoad(v)
+	if !ok {
+		return nil, false
+	}
+	if fr.Owner == "Func" && fr.Field == id {
+		return fr.Base, true
+	}
+	if in, nested := c.innerField[id]; nested && fr.Owner == in[0] && fr.Field == in[1] {
+		return fr.Base, true
+	}
+	return nil, false
 }
 
 // listed callback classes: dynamic calls of function-typed values that are part of the API contract.
@@ -598,12 +648,12 @@ func runOnce(c *Ctx, exec *ssa.Function, fnField, onceField, memoField string) {
 	}
 	ofExecRecv := func(base ssa.Value) bool { return p.Bind(core.Strip(base)) == ssa.Value(exec.Params[0]) }
 	isOnceLoad := func(v ssa.Value) bool {
-		fr, ok := core.AsFieldLoad(v)
-		return ok && fr.Owner == "Func" && fr.Field == onceField && ofExecRecv(fr.Base)
+		b, ok := c.funcFieldLoad(v, onceField)
+		return ok && ofExecRecv(b)
 	}
 	isMemoLoad := func(v ssa.Value) bool {
-		fr, ok := core.AsFieldLoad(v)
-		return ok && fr.Owner == "Func" && fr.Field == memoField && ofExecRecv(fr.Base)
+		b, ok := c.funcFieldLoad(v, memoField)
+		return ok && ofExecRecv(b)
 	}
 	isMemoDeref := func(v ssa.Value) bool {
 		ld, ok := v.(*ssa.UnOp)
@@ -679,7 +729,7 @@ func runOnce(c *Ctx, exec *ssa.Function, fnField, onceField, memoField string) {
 	var mstore *ssa.Store
 	p.RegionInstrs(exec, func(in ssa.Instruction) {
 		if st, ok := in.(*ssa.Store); ok {
-			if fr, ok := core.AsFieldAddr(st.Addr); ok && fr.Owner == "Func" && fr.Field == memoField && ofExecRecv(fr.Base) {
+			if b, ok := c.funcFieldAddr(st.Addr, memoField); ok && ofExecRecv(b) {
 				mstore = st
 			}
 		}
@@ -744,7 +794,7 @@ func runOnce(c *Ctx, exec *ssa.Function, fnField, onceField, memoField string) {
 		}
 		// the helper's Result parameter whose spill is what gets stored
 		if al, ok := mstore.Val.(*ssa.Alloc); ok {
-			if sv := core.SingleStore(al); sv != nil && sv == v {
+			if sv := core.SingleStore(al); sv != nil && (sv == v || (p.Bind(sv) != sv && (p.Bind(sv) == v || sameLocalLoad(p.Bind(sv), v)))) {
 				return true
 			}
 		}
@@ -810,7 +860,7 @@ func runOnce(c *Ctx, exec *ssa.Function, fnField, onceField, memoField string) {
 	if nf != nil && flagField != "" {
 		core.Instrs(nf, func(in ssa.Instruction) {
 			if st, ok := in.(*ssa.Store); ok {
-				if fr, ok := core.AsFieldAddr(st.Addr); ok && fr.Owner == "Func" && fr.Field == onceField {
+				if _, ok := c.funcFieldAddr(st.Addr, onceField); ok {
 					if src, ok := core.AsFieldLoad(st.Val); ok && src.Owner == "argBuilder" && src.Field == flagField {
 						copied = true
 					}
@@ -828,10 +878,10 @@ func runOnce(c *Ctx, exec *ssa.Function, fnField, onceField, memoField string) {
 	for _, f := range p.ArgFuncs() {
 		core.Instrs(f, func(in ssa.Instruction) {
 			if st, ok := in.(*ssa.Store); ok {
-				if fr, ok := core.AsFieldAddr(st.Addr); ok && fr.Owner == "Func" && fr.Field == onceField && !p.FreshIn(st.Addr) {
+				if _, ok := c.funcFieldAddr(st.Addr, onceField); ok && !p.FreshIn(st.Addr) {
 					stray = core.FuncName(f) + " at " + p.InstrPos(in)
 				}
-				if fr, ok := core.AsFieldAddr(st.Addr); ok && fr.Owner == "Func" && fr.Field == memoField && !inExec(f) && !p.FreshIn(st.Addr) {
+				if _, ok := c.funcFieldAddr(st.Addr, memoField); ok && !inExec(f) && !p.FreshIn(st.Addr) {
 					stray = core.FuncName(f) + " at " + p.InstrPos(in)
 				}
 			}
@@ -846,7 +896,7 @@ func runOnce(c *Ctx, exec *ssa.Function, fnField, onceField, memoField string) {
 		}
 		core.Instrs(f, func(in ssa.Instruction) {
 			if fa, ok := in.(*ssa.FieldAddr); ok {
-				if fr, ok := core.AsFieldAddr(fa); ok && fr.Owner == "Func" && fr.Field == memoField {
+				if _, ok := c.funcFieldAddr(fa, memoField); ok {
 					for _, ref := range *fa.Referrers() {
 						if _, isLoad := ref.(*ssa.UnOp); isLoad {
 							reader = core.FuncName(f) + " at " + p.InstrPos(in)
@@ -858,6 +908,53 @@ func runOnce(c *Ctx, exec *ssa.Function, fnField, onceField, memoField string) {
 	}
 	c.R.Add("ONCE-O5", "memo|read-only-by-executor", "(package)", "-", reader == "", "the run-once memo is read only by the executor", ternary(reader == "", "no other reader", "also read by "+reader))
 	_ = strings.Join
+}
+
+// sameLocalLoad: a and b are two loads of the same local variable with no assignment to it (or to a part of it)
+// that can happen after the first of them: they read the same value.
+func sameLocalLoad(a, b ssa.Value) bool {
+	la, ok1 := a.(*ssa.UnOp)
+	lb, ok2 := b.(*ssa.UnOp)
+	if !ok1 || !ok2 || la.Op != token.MUL || lb.Op != token.MUL || la.X != lb.X {
+		return false
+	}
+	al, ok := la.X.(*ssa.Alloc)
+	if !ok {
+		return false
+	}
+	first := ssa.Instruction(la)
+	if core.InstrDominates(lb, la) {
+		first = lb
+	}
+	ok = true
+	var visit func(addr ssa.Value, d int)
+	visit = func(addr ssa.Value, d int) {
+		for _, ref := range *addr.Referrers() {
+			switch x := ref.(type) {
+			case *ssa.Store:
+				if x.Addr == addr && core.CanFollow(first, x) {
+					ok = false
+				}
+				if x.Val == addr {
+					ok = false // address escapes
+				}
+			case *ssa.FieldAddr:
+				if d < 3 {
+					visit(x, d+1)
+				}
+			case *ssa.IndexAddr:
+				if d < 3 {
+					visit(x, d+1)
+				}
+			case *ssa.UnOp:
+			case *ssa.DebugRef:
+			default:
+				ok = false // handed to a call or otherwise escaping
+			}
+		}
+	}
+	visit(al, 0)
+	return ok
 }
 
 // onlyReachedFrom: every static call of helper h comes from top or from another private helper that is itself only
